@@ -94,7 +94,7 @@ class Fixture(object):
                                                       # handler's failure and travels to the requester as such)
             # the readiness call itself fails (EIO): not an end-of-stream; serve_all() must still close on its way out
             self.fault_fired = (sock.name, op, f[1])
-            self.log("recvfault", sock.name)
+            self.log("pollfault", sock.name)
             return ("error", errno.EIO)
         if f is not None and callno == f[0] and op in ("recv", "send") and f[1] != "pollerr" and self.fault_fired is None:
             self.fault_fired = (sock.name, op, f[1])
@@ -130,7 +130,8 @@ class Fixture(object):
             except BaseException as ex:  # noqa
                 fx.depth[name] -= 1
                 if not isinstance(ex, sim.SimAbort) and fx.depth[name] == 0:
-                    fx.log("serve", name)
+                    # (a serve() that fails without the stream having ended - the readiness call failed - changes nothing by itself)
+                    fx.log("servefail" if isinstance(ex, OSError) else "serve", name)
                 raise
             fx.depth[name] -= 1
             if r and fx.depth[name] == 0:
@@ -499,7 +500,7 @@ def campaign(chk, wname, frag, timeout, orders, kinds, stride=1, b_serve_all=Fal
                         msg, wname, kind, pos, opname, frag, order),
                         {"workload": wname, "fault": [pos, kind], "frag": frag, "timeout": timeout, "close_order": order,
                          "b_serve_all": b_serve_all})
-                if wname in TRACEABLE and white and kind != "pollerr":     # (the specification has no failing readiness call)
+                if wname in TRACEABLE and white:
                     traces.append(ev)
                 if len(chk._distinct) % 200 == 0:
                     gc.collect()
